@@ -26,7 +26,7 @@ RULE = ('cases are edit histories in an operation DSL (cell assignment, add/set/
         'remove_*, rename_*, move_*; remove_empty_*), so residue of the first edit is exposed (probe steps are '
         'counted in evaluations but, to stay cheap, not in distinct_nontrivial). (2) Hypothesis '
         'RuleBasedStateMachine over 8+8 pool names plus fresh names, argument lists up to 5 with repeats, <= 50 '
-        'steps, other-definitions drawn or snapshots of earlier states. Oracle after every step: (objects, '
+        'steps, other-definitions drawn or snapshots of earlier states; a fork rule branches the history (copy, take with and without axes, transposed / inverted twice, union with the empty definition, | and & with itself, Definition(*d), deepcopy, pickle), parks one of the two equal definitions with the model and goes on editing the other - parked definitions must keep their triple. Oracle after every step: (objects, '
         'properties, bools), return value and outcome class equal the model; a call the model rejects raises and '
         'leaves the triple unchanged (a difference in private attributes is only counted: residue must show up in what later steps observe); d == Definition(*d) and bools is len(objects) x len(properties). '
         'A history is non-trivial when it has >= 3 mutating steps and contains a remove or rename followed later by '
@@ -132,16 +132,58 @@ def classify(history, outcomes):
     return len(mut) >= 3 and (readd or rejected)
 
 
+FORKS = ['copy', 'take()', 'take(objects)', 'take(properties)', 'take(both)', 'transposed twice', 'inverted twice',
+         'union with empty', 'Definition(*d)', 'copy.copy', 'copy.deepcopy', 'pickle', 'or', 'and']
+
+
+def apply_fork(ctx, d, model, how, swap, parked, case):
+    """Branch the history: derive an equal definition from ``d`` (copy, take, ...), park one of the two with the model
+    and go on editing the other.  Returns the definition to go on with."""
+    import concepts
+    import copy
+    import pickle
+    objs, props = list(model.objects), list(model.properties)
+    make = {'copy': d.copy, 'take()': d.take, 'take(objects)': lambda: d.take(objs),
+            'take(properties)': lambda: d.take(properties=props), 'take(both)': lambda: d.take(objs, props),
+            'transposed twice': lambda: d.transposed().transposed(), 'inverted twice': lambda: d.inverted().inverted(),
+            'union with empty': lambda: d.union(concepts.Definition()), 'Definition(*d)': lambda: concepts.Definition(*d),
+            'copy.copy': lambda: copy.copy(d), 'copy.deepcopy': lambda: copy.deepcopy(d),
+            'pickle': lambda: pickle.loads(pickle.dumps(d)), 'or': lambda: d | d, 'and': lambda: d & d}[how]
+    new = ctx.call('fork/' + how, case, make)
+    ctx.check(dm.real_triple(new) == model.triple(), 'fork/' + how + '/triple', case,
+              lambda: f'{how} of the definition reads {dm.real_triple(new)!r}, model {model.triple()!r}')
+    # copy.copy is documented nowhere as independent: the copy is dropped, never edited next to its source
+    keep, park = (d, new) if swap else (new, d)
+    if how != 'copy.copy':
+        parked.append((park, model.copy(), how))
+        del parked[:-4]
+    return keep
+
+
+def check_parked(ctx, parked, op, case):
+    """Definitions the history branched off from may never change by editing the branch that goes on."""
+    for old, model, how in parked:
+        ctx.check(dm.real_triple(old) == model.triple(), 'fork/' + how + '/parked-changed', case,
+                  lambda: f'after {op!r} the definition parked at the {how} fork reads {dm.real_triple(old)!r}, '
+                          f'its model {model.triple()!r}')
+
+
 def run_history(ctx, history, record=True, classes=()):
     """Replay a whole history from the empty definition, checking every step."""
     import concepts
     d = concepts.Definition()
     model = dm.Model()
     outcomes = []
+    parked = []
     case = lambda: {'history': history}
     for op in history:
+        if op[0] == 'fork':
+            d = apply_fork(ctx, d, model, op[1], op[2], parked, case)
+            outcomes.append('fork')
+            continue
         rej = _rejects(model, op)
         model = dm.step(ctx, d, model, op, case)
+        check_parked(ctx, parked, op, case)
         outcomes.append('reject' if rej else 'ok')
     if record:
         ctx.case(case, classify(history, outcomes), classes)
@@ -237,6 +279,7 @@ def make_machine(ctx):
             self.history = []
             self.outcomes = []
             self.snapshots = []
+            self.parked = []
 
         def do(self, op):
             self.history.append(op)
@@ -244,6 +287,14 @@ def make_machine(ctx):
             rej = _rejects(self.model, op)
             self.model = dm.step(ctx, self.d, self.model, op, lambda: {'history': hist})
             self.outcomes.append('reject' if rej else 'ok')
+            check_parked(ctx, self.parked, op, lambda: {'history': hist})
+
+        @rule(how=st.sampled_from(FORKS), swap=st.booleans())
+        def fork(self, how, swap):
+            self.history.append(['fork', how, swap])
+            hist = list(self.history)
+            self.d = apply_fork(ctx, self.d, self.model, how, swap, self.parked, lambda: {'history': hist})
+            self.outcomes.append('fork')
 
         @initialize(enc=small_defs())
         def start(self, enc):
